@@ -298,6 +298,19 @@ class Assembler:
                 edits.append(Edit(k, e, "", "R5", "visibility dropped (single module)"))
                 k = e
                 continue
+            # ---- `_` function parameters (R13): Verus rejects them; give them a name nobody uses
+            if t.kind == IDENT and t.text == "_" and v.is_p(k + 1, ":") and k > a and v.text(k - 1) in ("(", ",") \
+                    and not v.is_p(k + 2, ":"):
+                edits.append(Edit(k, k + 1, f"unused__{self.counter}", "R13", "`_` parameter named"))
+                self.counter += 1
+                k += 1
+                continue
+            # ---- `|_|` closure parameters (R13)
+            if t.kind == IDENT and t.text == "_" and k > a and v.is_p(k - 1, "|") and v.is_p(k + 1, "|"):
+                edits.append(Edit(k, k + 1, f"unused__{self.counter}", "R13", "`_` closure parameter named"))
+                self.counter += 1
+                k += 1
+                continue
             # ---- use statements inside bodies (R5)
             if t.kind == IDENT and t.text == "use" and (k == a or v.text(k - 1) in ("{", ";", "}")):
                 j = k
@@ -699,6 +712,10 @@ class Assembler:
                     raise ExtractError(f"lost anchor: {fs.path}: occurrence {h.occ} of `{h.anchor}` not found")
                 if h.mode == "before":
                     inserts.append(Ins(r[0], h.text, f"hint:{fs.path}", 2))
+                elif h.mode == "wrap":
+                    pre, _, post = h.text.partition("\n---\n")
+                    inserts.append(Ins(r[0], pre, f"hint:{fs.path}", 3))
+                    inserts.append(Ins(r[1], post, f"hint:{fs.path}", -1))
                 else:
                     e = self.stmt_end(v, r[0], body_b)
                     inserts.append(Ins(e, h.text, f"hint:{fs.path}", 2))
@@ -734,7 +751,7 @@ class Assembler:
             with open(os.path.join(VERIF, "prelude", p)) as f:
                 # everything lives in one private module: visibility keywords are meaningless and
                 # would only trigger Verus's cross-module well-formedness checks
-                ptxt = re.sub(r"\bpub\s+((open|closed)\s+)?", "", f.read())
+                ptxt = strip_vis(f.read())
                 self.emit(f"\n// ===== prelude {p} =====\n" + ptxt + "\n")
         self.emit("\n// ===== extracted from /repo working tree =====\n")
         open_impl = None
@@ -766,7 +783,7 @@ class Assembler:
                 self.emit_item(e[1], e[2])
             elif e[0] == "raw":
                 close_impl()
-                self.emit("\n/*@L raw*/\n" + re.sub(r"\bpub\s+((open|closed)\s+)?", "", e[1]) + "\n/*@E*/\n")
+                self.emit("\n/*@L raw*/\n" + strip_vis(e[1]) + "\n/*@E*/\n")
             elif e[0] == "fn":
                 fs = e[1]
                 fi, it = self.find_fn(fs.path)
@@ -778,6 +795,16 @@ class Assembler:
                 in_trait_impl = it.parent is not None and it.parent.kind == "impl" and it.parent.impl_trait is not None
                 if self.canaries and has_req and not fs.nocanary and not in_trait_impl:
                     self.emit_fn(fs, "canary")
+            elif e[0] == "implraw":
+                fi, cands = self.src.find(e[1])
+                cands = [c for c in cands if c.kind == "impl"]
+                if len(cands) != 1:
+                    raise ExtractError(f"lost anchor: %implraw {e[1]}: {len(cands)} impl blocks match")
+                if open_impl is not cands[0]:
+                    close_impl()
+                    self.emit("\n" + self.impl_header(fi, cands[0]) + " /*@L impl*/ { /*@E*/\n")
+                    open_impl = cands[0]
+                self.emit("\n/*@L raw*/\n" + strip_vis(e[2]) + "\n/*@E*/\n")
             elif e[0] == "extern":
                 fs = self.fnspecs.get(e[1])
                 if fs is None:
@@ -830,6 +857,12 @@ class Assembler:
                 continue
             actual.append(t.text)
         return expected, actual
+
+
+def strip_vis(text):
+    """prelude / raw text: everything lives in one private module, so visibility keywords (and the
+    open/closed markers that only make sense on pub functions) are removed"""
+    return re.sub(r"\bpub\s+((open|closed)\s+(?=spec\b))?", "", text)
 
 
 def normalise_pub(tokens):
